@@ -14,15 +14,15 @@ func init() { checks["C10"] = c10 }
 
 func c10(r *core.Run) {
 	bin := r.GoBuild("vchild", "./cmd/vchild")
-	n := uint64(r.Pick(240, 12000))
+	n := uint64(r.Pick(240, 3000))
 	if v := os.Getenv("VERIF_C10_N"); v != "" {
 		fmt.Sscan(v, &n)
 	}
-	passes := r.Pick(2, 6)
+	passes := r.Pick(2, 3)
 	for pass := 0; pass < passes; pass++ {
 		// the same cases again in fresh processes (fresh hash seeds)
 		r.RunChildren(core.ChildSpec{Bin: bin, Monitor: "c10", Stream: "gen", From: 0, To: n, Timeout: 25 * time.Minute,
-			Extra: []string{"off=" + offClasses(r), fmt.Sprintf("pass=%d", pass), "orders=" + map[bool]string{true: "8", false: "48"}[r.Quick()]}})
+			Extra: []string{"off=" + offClasses(r), fmt.Sprintf("pass=%d", pass), "orders=" + map[bool]string{true: "8", false: "16"}[r.Quick()]}})
 	}
 	keys := make([]string, 0, len(r.Data))
 	for k := range r.Data {
@@ -55,7 +55,7 @@ func c10(r *core.Run) {
 		r.Require("runs", 1000)
 	}
 	r.Assumption("map-iteration nondeterminism is explored by repetition within a process, by fresh processes (new hash seeds) and by forcing link orders through the verif-tagged hook")
-	r.FinishStd("valid multi-file programs biased to many includes, name reuse across files and directories, file names equal to imported runtime packages, go.* annotations, constants of map/set/struct type; each generated (random option set: zap, strict enum text, no-recurse, single output file) 5 (quick) or 9 times in one process, under 8/48 forced link orders, and in 2/6 separate processes; sha256 of every output path+content and of the canonically relabelled plugin request must be identical, and success/failure must agree. non-trivial: every program, distinct by (digest, root text)", "cases")
+	r.FinishStd("valid multi-file programs biased to many includes, name reuse across files and directories, file names equal to imported runtime packages, go.* annotations, constants of map/set/struct type; each generated (random option set: zap, strict enum text, no-recurse, single output file) 5 (quick) or 9 times in one process, under 8/16 forced link orders, and in 2/3 separate processes; sha256 of every output path+content and of the canonically relabelled plugin request must be identical, and success/failure must agree. non-trivial: every program, distinct by (digest, root text)", "cases")
 }
 
 func inputOf(v string) string {
